@@ -598,13 +598,14 @@ theorem nostuck_step (s : St) (e : Ev) (st : Started) (h : NoStuck s) (hr : RefB
 theorem tagDone_clears (s : St) (st : Started) (name : String) (snap : Tag) (held result : List Nat)
     (ot : Tag)
     (hj : s.jTag = some (name, snap, held)) (ht : sget s.tags name = some ot) (hd : ot.defn = snap.defn)
+    (hg : ot.gen = snap.gen) -- CHANGED (gen)
     (hm : s.upd = [] ∧ s.rst = [] ∧ s.add = []) :
     ∃ t, sget (step s (.tagDone name result) st).1.tags name = some t ∧ t.unc = [] := by
   obtain ⟨hu, hr, ha⟩ := hm
   simp only [step, hj]
   have hnn : (name != name) = false := by simp
   simp only [hnn, Bool.false_eq_true, if_false, ht]
-  have hdd : (ot.defn == snap.defn) = true := by simp [hd]
+  have hdd : (ot.defn == snap.defn && ot.gen == snap.gen) = true := by simp [hd, hg]
   simp only [hdd, if_true]
   simp only [release_tags, startMerge_tags, startConverter_tags, startTagging_tags]
   split
